@@ -226,6 +226,11 @@ FIXED += [
      c04(wrap("  optional :&\n  &: vf_a\n  integer :&\n&: k"), wrap("  optional :: vf_a\n  integer :: k"))),
 ]
 
+FIXED += [
+    ("C06", "IndexError@Cray_Pointer_Decl.match", "bde152e", "'pointer (p, )' (Cray pointer declaration with an empty pointee): IndexError escaped instead of a syntax error",
+     c06("subroutine s\n  pointer (p, ), (q, b(10))\nend subroutine s\n")),
+]
+
 OPEN = [
     ("C01", "format-c1002-node-not-reproduced", "a scale factor directly followed by a data edit descriptor ('1p e12.4') is held in a Format_Item_C1002 node but printed with a comma ('1P, E12.4'), so the re-parsed tree has two list items instead: the tree is not structurally identical after the round trip (the comma is asserted by test_format_specification_r1002.py)",
      {"mode": "source", "std": "f2003", "ic": True, "text": "subroutine s\n10 format (1p e12.4, i3)\nend subroutine s\n"}),
